@@ -631,7 +631,8 @@ def leak_cases(draw):
     return dict(n=draw(st.integers(1, 2)), d=draw(st.sampled_from([100, 300, 500])),
                 amp=draw(gen.fl(1.0, 8.0)), rate=draw(st.sampled_from([0.5, 2.0])),
                 src=draw(st.sampled_from(["r", "g"])), deph=draw(st.sampled_from([0.0, 0.5])),
-                idle_first=draw(st.booleans()))
+                idle_first=draw(st.booleans()),
+                eps=draw(st.sampled_from([0.0, 0.1])), epsp=draw(st.sampled_from([0.0, 0.3])))
 
 
 def check_leak(case, ctx: Ctx):
@@ -690,6 +691,29 @@ def check_leak(case, ctx: Ctx):
         ctx.fail(C, "legacy:bit_of_leaked_atom",
                  f"populations (r,g,x per atom, register order) {np.round(pops, 4).tolist()}: bitstring weights "
                  f"{np.round(w, 4).tolist()}, expected {np.round(exp, 4).tolist()}")
+    # detection errors on top: expect() of "atom 0 reads 1" follows eps (1 - p_r) + (1 - eps') p_r
+    if case.get("eps") or case.get("epsp"):
+        eps, epsp = case.get("eps", 0.0), case.get("epsp", 0.0)
+        nm2 = NoiseModel(p_false_pos=eps, p_false_neg=epsp, **kw)
+        sim2 = ctx.must(lambda: QutipEmulator.from_sequence(seq, config=SimConfig.from_noise_model(nm2),
+                                                            evaluation_times="Minimal"), C, "legacy emulator (SPAM)")
+        leg2 = ctx.must(lambda: sim2.run(), C, "legacy run (SPAM)")
+        if hasattr(leg2, "expect") and type(leg2).__name__ == "CoherentResults":
+            # (with detection errors expect() works on the post-measurement two-level picture, the
+            #  state read as 1 first, as in the ground-rydberg convention)
+            proj1 = qutip.basis(2, 0) * qutip.basis(2, 0).dag()
+            got = float(np.real(leg2.expect([qutip.tensor([proj1] + [qutip.qeye(2)] * (n - 1))])[0][-1]))
+            proj_r = qutip.basis(3, 0) * qutip.basis(3, 0).dag()
+            op0 = qutip.tensor([proj_r] + [qutip.qeye(3)] * (n - 1))
+            rho2 = leg2.states[-1]
+            rho2 = rho2 if rho2.isoper else rho2 * rho2.dag()
+            p_r = float(np.real((op0 * rho2).tr()))
+            want = eps * (1 - p_r) + (1 - epsp) * p_r
+            ctx.label("leakage_with_detection_errors")
+            if abs(got - want) > 1e-6:
+                ctx.fail(C, "legacy:expect_with_detection_errors",
+                         f"eps={eps}, eps'={epsp}, P(r) of atom 0 = {p_r:.4f}: expect() gives {got:.4f}, "
+                         f"eps (1 - p) + (1 - eps') p = {want:.4f}")
     # the V2 backend on the same configuration
     try:
         res = QutipBackendV2(seq, config=QutipConfig(noise_model=nm, observables=[StateResult()])).run()
